@@ -3,18 +3,49 @@
      tree  ::= M | F(info) | D(info)[entry,entry,...] | L(info)!tree | L(info)=<hex realpath>;tree
      entry ::= <hex name>:tree
      info  ::= dev.ino.mode.size.sec.nsec            (decimal)
-   Patterns: comma separated hex strings, "." = none.  `matches` is instantiated by a byte-wise glob that knows
-   '*', '?' and literal bytes only (enough for the patterns the check generates; fnmatch itself is not modelled). *)
+   Patterns: comma separated hex strings, "." = none.  `matches` is instantiated by the byte-wise glob below (checked
+   against libc's fnmatch by the harness on the generated patterns and names; fnmatch itself is not modelled in Coq). *)
 
-let rec glob (p : n list) (s : n list) : bool =
-  match p, s with
-  | [], [] -> true
-  | [], _ -> false
-  | c :: p', _ when int_of_n c = 42 ->
-    glob p' s || (match s with [] -> false | _ :: s' -> glob p s')
-  | c :: p', x :: s' when int_of_n c = 63 -> glob p' s'
-  | c :: p', x :: s' -> int_of_n c = int_of_n x && glob p' s'
-  | _ :: _, [] -> false
+(* fnmatch(pattern, name, 0) on bytes (C locale): star, question mark, backslash followed by c (c taken literally; a
+   trailing backslash matches nothing), bracket expressions with ranges, a leading exclamation mark or caret for the
+   complement, a closing bracket taken literally when it comes first, backslash escapes inside; an opening bracket
+   without a closing one is a literal.  No special treatment of the slash or of a leading period (flags = 0). *)
+let rec glob_i (p : int list) (s : int list) : bool =
+  match p with
+  | [] -> s = []
+  | 42 :: p' -> glob_i p' s || (match s with [] -> false | _ :: s' -> glob_i p s')
+  | 63 :: p' -> (match s with [] -> false | _ :: s' -> glob_i p' s')
+  | 92 :: [] -> false
+  | 92 :: c :: p' -> (match s with x :: s' when x = c -> glob_i p' s' | _ -> false)
+  | 91 :: p' ->
+    (match bracket p' with
+     | None -> (match s with x :: s' when x = 91 -> glob_i p' s' | _ -> false)
+     | Some (neg, items, rest) ->
+       (match s with
+        | [] -> false
+        | x :: s' ->
+          let inside = List.exists (fun (lo, hi) -> lo <= x && x <= hi) items in
+          (inside <> neg) && glob_i rest s'))
+  | c :: p' -> (match s with x :: s' when x = c -> glob_i p' s' | _ -> false)
+(* after '[': (negated?, ranges, pattern after the closing ']'), or None when there is no closing ']' *)
+and bracket (p : int list) =
+  let neg, p = (match p with (33 | 94) :: t -> true, t | _ -> false, p) in
+  let rec items first acc p =
+    match p with
+    | [] -> None
+    | 93 :: t when not first -> Some (List.rev acc, t)
+    | _ ->
+      let take p = (match p with 92 :: c :: t -> Some (c, t) | [92] -> None | c :: t -> Some (c, t) | [] -> None) in
+      (match take p with
+       | None -> None
+       | Some (lo, t) ->
+         (match t with
+          | 45 :: t2 when (match t2 with 93 :: _ -> false | [] -> false | _ -> true) ->
+            (match take t2 with None -> None | Some (hi, t3) -> items false ((lo, hi) :: acc) t3)
+          | _ -> items false ((lo, lo) :: acc) t)) in
+  match items true [] p with None -> None | Some (l, rest) -> Some (neg, l, rest)
+
+let glob (p : n list) (s : n list) : bool = glob_i (List.map int_of_n p) (List.map int_of_n s)
 
 let zeros32 = List.init 32 (fun _ -> N0)
 
